@@ -149,7 +149,7 @@ fn order0(p: u64, region_max_pages: u32) -> std::ops::Range<u64> {
     base..base + (1u64 << order)
 }
 
-fn expand_pages(pages: &[u64], rmp: u32) -> Vec<u64> {
+pub(crate) fn expand_pages(pages: &[u64], rmp: u32) -> Vec<u64> {
     let mut v: Vec<u64> = pages.iter().flat_map(|p| order0(*p, rmp)).collect();
     v.sort_unstable();
     v
